@@ -1,11 +1,20 @@
 package scratch
-import ("testing";"fmt";"strconv";"github.com/bufbuild/protocompile/verifexport")
+import ("testing";"context";"fmt"
+ "github.com/bufbuild/protocompile"
+ "pgregory.net/rapid"
+ "verif/harness/gen")
 func TestS(t *testing.T){
- for _,s:=range []string{"0x2800000000000001p-1134","0x1.000000000000101p-1023","0x2800000000000001p-1134"}{
-  var d verifexport.Decimal
-  _,err:=d.Parse(s)
-  f,ex:=d.Float64()
-  w,_:=strconv.ParseFloat(s,64)
-  fmt.Printf("%-12s err=%v f=%v exact=%v want=%v\n",s,err,f,ex,w)
- }
+ fails:=map[string]int{}
+ n:=0; rel:=0
+ rapid.Check(t, func(rt *rapid.T){
+  ws:=gen.GenWorkspace(rt, gen.Config{})
+  rel+=gen.RespellRefs(rt, ws)
+  files:=ws.PrintAll()
+  c:=protocompile.Compiler{Resolver: protocompile.WithStandardImports(&protocompile.SourceResolver{Accessor: protocompile.SourceAccessorFromMap(files)})}
+  _,err:=c.Compile(context.Background(), ws.Names()...)
+  n++
+  if err!=nil { fails[err.Error()]++; if len(fails)<=2 && fails[err.Error()]==1 { for k,v:=range files { fmt.Printf("--- %s\n%s\n",k,v)}; fmt.Println("ERR:",err) } }
+ })
+ fmt.Println("cases",n,"relative refs",rel,"distinct failures",len(fails))
+ for k,v:=range fails { fmt.Println(v,k) }
 }
